@@ -210,13 +210,17 @@ StopCtx2(op, L) == IF op \in {"call", "ping"} /\ L.a \in Actor /\ hst.stopAcc[L.
                    \* (C12: "a stop request never waits for mailbox space": a stop / restart request refused on a bounded mailbox)
                    ELSE IF op \in {"stop", "halt", "try_stop", "try_halt", "restart", "consume", "consume_sync"} /\ L.a \in Actor /\ act[L.a].cap # Unb THEN {"C12"}
                    ELSE {}
+\* (a registry operation that hands out / reports the wrong instance while an instance of that type has FAILED: C06)
+TypeFailedX(op, a) == IF op \in {"from_registry", "setup", "register", "replace", "unregister", "try_from_registry", "already_running"}
+                         /\ a \in Actor /\ \E b \in Actor : act[b].pc = "failed" /\ act[b].ty = act[a].ty
+                      THEN {"C06"} ELSE {}
 LastMatchesCtx(op, L, sfx) ==
                       /\ GX(IF sfx # "" THEN "oe.res." \o op \o sfx ELSE ResGuard(op, L), SX(L.a) \cup StopCtx2(op, L), L.res = E.res)
                       /\ G("oe.val." \o op, L.res \notin {"ok", "some"} \/ (L.pos = E.pos /\ L.inst = E.inst))
-                      /\ G("oe.actor." \o op, E.a = "*" \/ L.a = E.a)
+                      /\ GX("oe.actor." \o op, TypeFailedX(op, L.a), E.a = "*" \/ L.a = E.a)
 LastMatches(op, L) == /\ GX(ResGuard(op, L), SX(L.a) \cup StopCtx2(op, L), L.res = E.res)
                       /\ G("oe.val." \o op, L.res \notin {"ok", "some"} \/ (L.pos = E.pos /\ L.inst = E.inst))
-                      /\ G("oe.actor." \o op, E.a = "*" \/ L.a = E.a)
+                      /\ GX("oe.actor." \o op, TypeFailedX(op, L.a), E.a = "*" \/ L.a = E.a)
 T_OpEnd == /\ IsEvent("op_end")
            /\ LET c == E.task IN
               \* (a registry operation that returns without having passed the lock's scheduling point - e.g. one rewritten to
@@ -362,7 +366,8 @@ T_DefaultNew == /\ IsEvent("default_new")
                            THEN /\ G("dn.recreate", act[E.task].pc = "rs_mid" /\ act[E.task].strat = "recreate")
                                 /\ UNCHANGED vars
                            ELSE LET c == E.task IN
-                                /\ G("dn.cur", cur = c /\ ~yl /\ cli[c].stage = "reglock" /\ cli[c].op \in {"from_registry", "setup"})
+                                /\ GX("dn.cur", IF \E b \in Actor : act[b].pc = "failed" /\ act[b].ty = E.ty THEN {"C06"} ELSE {},
+                                      cur = c /\ ~yl /\ cli[c].stage = "reglock" /\ cli[c].op \in {"from_registry", "setup"})
                                 /\ G("dn.lock", RegLockFree(c))
                                 /\ G("dn.type", cli[c].arg.ty = E.ty)
                                 \* the registry spawns only when no live instance is registered
